@@ -371,6 +371,312 @@ func calleeName(c *ast.CallExpr) string {
 	return ""
 }
 
+// ---------------------------------------------------------------- statement programs (interpreted tie)
+
+type pstmt struct {
+	kind        string // read copy havoc check make block
+	x, y        string
+	k           int
+	body        []pstmt
+}
+
+// convOf: the variable behind a chain of conversions T(T'(y)), or ""
+func convOf(e ast.Expr) string {
+	for {
+		switch x := e.(type) {
+		case *ast.ParenExpr:
+			e = x.X
+		case *ast.Ident:
+			return x.Name
+		case *ast.SelectorExpr:
+			return x.Sel.Name
+		case *ast.CallExpr:
+			id, ok := x.Fun.(*ast.Ident)
+			if !ok || len(x.Args) != 1 {
+				return ""
+			}
+			switch id.Name {
+			case "int", "int8", "int16", "int32", "int64", "uint", "uint8", "uint16", "uint32", "uint64":
+				// a narrowing or sign-changing conversion does not keep an upper bound in general, a
+				// widening one does; the decoders only convert counts that were checked as int
+				e = x.Args[0]
+			default:
+				return ""
+			}
+		default:
+			return ""
+		}
+	}
+}
+
+func lhsName(e ast.Expr) string {
+	switch x := e.(type) {
+	case *ast.Ident:
+		return x.Name
+	case *ast.SelectorExpr:
+		return x.Sel.Name
+	}
+	return ""
+}
+
+func firstIdent(e ast.Node) string {
+	if v := convOf0(e); v != "" {
+		return v
+	}
+	ids := idents(e)
+	if len(ids) > 0 {
+		return ids[0]
+	}
+	return ""
+}
+
+func convOf0(e ast.Node) string {
+	if x, ok := e.(ast.Expr); ok {
+		return convOf(x)
+	}
+	return ""
+}
+
+func (st *fnState) progAssign(lhs, rhs []ast.Expr, out *[]pstmt) {
+	if len(lhs) != len(rhs) {
+		for _, l := range lhs {
+			if n := lhsName(l); n != "" {
+				*out = append(*out, pstmt{kind: "havoc", x: n})
+			}
+		}
+		return
+	}
+	for i := range lhs {
+		n := lhsName(lhs[i])
+		if n == "" || n == "_" {
+			continue
+		}
+		if c, ok := rhs[i].(*ast.CallExpr); ok {
+			if f, ok := c.Fun.(*ast.Ident); ok && f.Name == "make" {
+				continue
+			}
+		}
+		if src := readSource(rhs[i]); src != "" {
+			*out = append(*out, pstmt{kind: "read", x: n, y: src})
+		} else if y := convOf(rhs[i]); y != "" {
+			*out = append(*out, pstmt{kind: "copy", x: n, y: y})
+		} else {
+			*out = append(*out, pstmt{kind: "havoc", x: n})
+		}
+	}
+}
+
+// progMakes: the allocations inside one statement's own expressions, in the same sense as makesIn
+func (st *fnState) progMakes(n ast.Node, out *[]pstmt) {
+	ast.Inspect(n, func(x ast.Node) bool {
+		switch x.(type) {
+		case *ast.BlockStmt, *ast.FuncLit:
+			return false
+		}
+		c, ok := x.(*ast.CallExpr)
+		if !ok {
+			return true
+		}
+		if name := calleeName(c); (strings.HasPrefix(name, "New") || strings.HasPrefix(name, "Create")) && collectionName(name) && len(c.Args) >= 1 {
+			for _, a := range c.Args {
+				if id, ok := a.(*ast.Ident); ok {
+					if s, ok := st.source[id.Name]; ok && s != "parameter" {
+						*out = append(*out, pstmt{kind: "make", x: id.Name, y: "call:" + name})
+						break
+					}
+				}
+			}
+			return true
+		}
+		f, ok := c.Fun.(*ast.Ident)
+		if !ok || f.Name != "make" || len(c.Args) < 2 {
+			return true
+		}
+		if _, isMap := c.Args[0].(*ast.MapType); isMap {
+			return true
+		}
+		for _, sz := range c.Args[1:] {
+			if readSource(sz) != "" {
+				// sized directly by a Read call: an unnamed, unchecked value
+				*out = append(*out, pstmt{kind: "read", x: "$direct", y: readSource(sz)}, pstmt{kind: "make", x: "$direct", y: exprString(c.Args[0])})
+				break
+			}
+			if _, src := st.taintOf(sz); src != "" {
+				v := firstIdent(sz)
+				for _, id := range idents(sz) {
+					if _, ok := st.source[id]; ok {
+						v = id
+						break
+					}
+				}
+				*out = append(*out, pstmt{kind: "make", x: v, y: exprString(c.Args[0])})
+				break
+			}
+		}
+		return true
+	})
+}
+
+// prog transcribes a statement list (run after the taint pass of the whole function, so that
+// st.source knows every variable that carries a decoded value)
+func (st *fnState) prog(list []ast.Stmt) []pstmt {
+	var out []pstmt
+	for _, s := range list {
+		switch x := s.(type) {
+		case *ast.AssignStmt:
+			st.progMakes(x, &out)
+			st.progAssign(x.Lhs, x.Rhs, &out)
+		case *ast.DeclStmt:
+			st.progMakes(x, &out)
+			if gd, ok := x.Decl.(*ast.GenDecl); ok {
+				for _, sp := range gd.Specs {
+					if vs, ok := sp.(*ast.ValueSpec); ok && len(vs.Values) == len(vs.Names) {
+						var l []ast.Expr
+						for _, n := range vs.Names {
+							l = append(l, n)
+						}
+						st.progAssign(l, vs.Values, &out)
+					}
+				}
+			}
+		case *ast.ExprStmt:
+			st.progMakes(x, &out)
+			if c, ok := x.X.(*ast.CallExpr); ok {
+				if sel, ok := c.Fun.(*ast.SelectorExpr); ok && sel.Sel.Name == "CheckCount" && len(c.Args) == 2 {
+					k := 0
+					if bl, ok := c.Args[1].(*ast.BasicLit); ok {
+						fmt.Sscanf(bl.Value, "%d", &k)
+					}
+					if v := convOf(c.Args[0]); v != "" {
+						out = append(out, pstmt{kind: "check", x: v, k: k})
+					}
+				}
+			}
+		case *ast.IfStmt:
+			if x.Init != nil {
+				out = append(out, st.prog([]ast.Stmt{x.Init})...)
+			}
+			st.progMakes(x.Cond, &out)
+			out = append(out, pstmt{kind: "block", body: st.prog(x.Body.List)})
+			if x.Else != nil {
+				out = append(out, pstmt{kind: "block", body: st.prog([]ast.Stmt{x.Else})})
+			}
+			if endsInPanic(x.Body) && mentionsCall(x.Cond, "Available", "Len") {
+				// `if n > Available() { panic }`: what follows runs only when n ≤ Available()
+				if be, ok := x.Cond.(*ast.BinaryExpr); ok && (be.Op == token.GTR || be.Op == token.GEQ) {
+					if v := convOf(be.X); v != "" {
+						out = append(out, pstmt{kind: "check", x: v, k: 1})
+					}
+				}
+			}
+		case *ast.BlockStmt:
+			out = append(out, pstmt{kind: "block", body: st.prog(x.List)})
+		case *ast.ForStmt:
+			if x.Init != nil {
+				out = append(out, st.prog([]ast.Stmt{x.Init})...)
+			}
+			body := st.prog(x.Body.List)
+			if x.Post != nil {
+				body = append(body, st.prog([]ast.Stmt{x.Post})...)
+			}
+			out = append(out, pstmt{kind: "block", body: body})
+		case *ast.RangeStmt:
+			out = append(out, pstmt{kind: "block", body: st.prog(x.Body.List)})
+		case *ast.SwitchStmt:
+			if x.Init != nil {
+				out = append(out, st.prog([]ast.Stmt{x.Init})...)
+			}
+			for _, cc := range x.Body.List {
+				out = append(out, pstmt{kind: "block", body: st.prog(cc.(*ast.CaseClause).Body)})
+			}
+		case *ast.TypeSwitchStmt:
+			for _, cc := range x.Body.List {
+				out = append(out, pstmt{kind: "block", body: st.prog(cc.(*ast.CaseClause).Body)})
+			}
+		case *ast.IncDecStmt:
+			if n := lhsName(x.X); n != "" {
+				out = append(out, pstmt{kind: "havoc", x: n})
+			}
+		case *ast.ReturnStmt, *ast.GoStmt, *ast.DeferStmt, *ast.SendStmt:
+			st.progMakes(x, &out)
+		}
+	}
+	return out
+}
+
+// relevant: variables that (transitively) reach an allocation size or a check
+func relevant(ps []pstmt, rel map[string]bool) {
+	for changed := true; changed; {
+		changed = false
+		var walk func(ps []pstmt)
+		walk = func(ps []pstmt) {
+			for _, p := range ps {
+				switch p.kind {
+				case "make", "check":
+					if !rel[p.x] {
+						rel[p.x], changed = true, true
+					}
+				case "copy":
+					if rel[p.x] && !rel[p.y] {
+						rel[p.y], changed = true, true
+					}
+				case "block":
+					walk(p.body)
+				}
+			}
+		}
+		walk(ps)
+	}
+}
+
+func hasMake(ps []pstmt) bool {
+	for _, p := range ps {
+		if p.kind == "make" || (p.kind == "block" && hasMake(p.body)) {
+			return true
+		}
+	}
+	return false
+}
+
+func leanProg(ps []pstmt, rel map[string]bool) string {
+	if len(ps) == 0 {
+		return ".done"
+	}
+	p, rest := ps[0], leanProg(ps[1:], rel)
+	switch p.kind {
+	case "read":
+		if !rel[p.x] {
+			return rest
+		}
+		return fmt.Sprintf("(.read %s %s %s)", lit(p.x), lit(p.y), rest)
+	case "copy":
+		if !rel[p.x] {
+			return rest
+		}
+		return fmt.Sprintf("(.copy %s %s %s)", lit(p.x), lit(p.y), rest)
+	case "havoc":
+		if !rel[p.x] {
+			return rest
+		}
+		return fmt.Sprintf("(.havoc %s %s)", lit(p.x), rest)
+	case "check":
+		return fmt.Sprintf("(.check %s %d %s)", lit(p.x), p.k, rest)
+	case "make":
+		return fmt.Sprintf("(.make %s %s %s)", lit(p.y), lit(p.x), rest)
+	case "block":
+		b := leanProg(p.body, rel)
+		if b == ".done" {
+			return rest
+		}
+		return fmt.Sprintf("(.block %s %s)", b, rest)
+	}
+	return rest
+}
+
+type fprog struct{ fn, term string }
+
+var progs []fprog
+
 func lit(s string) string { return "\"" + strings.ReplaceAll(s, "\"", "\\\"") + "\"" }
 
 func main() {
@@ -416,6 +722,11 @@ func main() {
 					}
 				}
 				st.block(fd.Body.List, map[string]bool{})
+				if ps := st.prog(fd.Body.List); hasMake(ps) {
+					rel := map[string]bool{}
+					relevant(ps, rel)
+					progs = append(progs, fprog{name, leanProg(ps, rel)})
+				}
 			}
 			return nil
 		})
@@ -435,7 +746,7 @@ func main() {
 		return sites[i].elem < sites[j].elem
 	})
 	var b strings.Builder
-	b.WriteString("/- generated by xlate/c04 from the Go sources: do not edit -/\nnamespace Gen.AllocSites\n\n")
+	b.WriteString("/- generated by xlate/c04 from the Go sources: do not edit -/\nimport Golib.FailClosed.SiteCheck\nnamespace Gen.AllocSites\nopen FailClosed.Sites\n\n")
 	b.WriteString("structure Site where\n  file : String\n  func : String\n  elem : String\n  source : String\n  guarded : Bool\nderiving DecidableEq, Repr\n\n")
 	b.WriteString("/-- every `make(T, n)` whose size flows from a `Read*` result of the same function -/\ndef sites : List Site := [\n")
 	for i, s := range sites {
@@ -444,6 +755,16 @@ func main() {
 			sep = ""
 		}
 		fmt.Fprintf(&b, "  ⟨%s, %s, %s, %s, %v⟩%s\n", lit(s.file), lit(s.fn), lit(s.elem), lit(s.source), s.guarded, sep)
+	}
+	b.WriteString("]\n\n")
+	sort.Slice(progs, func(i, j int) bool { return progs[i].fn < progs[j].fn })
+	b.WriteString("/-- the body of every function that sizes an allocation from a decoded value, in the statement\n    language of Golib.FailClosed.SiteCheck -/\ndef progs : List (String × Prog) := [\n")
+	for i, p := range progs {
+		sep := ","
+		if i == len(progs)-1 {
+			sep = ""
+		}
+		fmt.Fprintf(&b, "  (%s, %s)%s\n", lit(p.fn), p.term, sep)
 	}
 	b.WriteString("]\n\n")
 	fmt.Fprintf(&b, "/-- `DataInputX.ReadBytes` compares its size with the buffered bytes (and panics) before `make` -/\ndef readBytesChecksBeforeMake : Bool := %v\n\nend Gen.AllocSites\n", readBytesChecked)
